@@ -152,7 +152,7 @@ type c07Driver struct {
 	armNextAfterBarrier bool
 	scanCD              *c07Countdown
 	lastCD              *c07Countdown // countdown used by the most recent armed call
-	kinds               []string // op-kind sequence (fingerprint)
+	kinds               []string      // op-kind sequence (fingerprint)
 	// C08 bookkeeping: what kinds of duplicate rejections / re-acceptances the history contained
 	dupAfter map[string]int
 	// beforeClose runs just before the engine is closed for a reopen (evidence hooks)
@@ -489,7 +489,7 @@ func (d *c07Driver) stepAppend(ch *c07Chan) {
 
 // doAppend: baseChoice -1 random, 0 none, 1 right, 2 wrong.
 func (d *c07Driver) doAppend(ch *c07Chan, mode c07Mode, recs []c07Rec, baseChoice int) (accepted bool) {
-	if !d.ensureLease(ch) {
+	if d.dead || !d.ensureLease(ch) {
 		return false
 	}
 	var baseSeq uint64
